@@ -7,6 +7,8 @@ CONSTANTS
   EndVecs <- OneEnd
   CycSet <- CycParamsQ
   Cyc = FALSE
+  Dec = FALSE
+  DecSet <- DecParamsQ
 SPECIFICATION Spec
 INVARIANTS DefinitionsAgree VitMeaning VitResult MantissaBound NoStall
 PROPERTY Progress
